@@ -1,4 +1,5 @@
 #![allow(dead_code)]
+mod browse;
 mod decode;
 mod encode;
 mod respond;
@@ -73,6 +74,16 @@ fn main() {
             let mut lines = Vec::new();
             for id in from..=to {
                 lines.extend(respond::scenario(id, seed, thorough));
+            }
+            sim::write_trace(&out, &lines);
+            println!("{}", json!({"summary": {"scenarios": to + 1 - from, "lines": lines.len()}}));
+        }
+        "browse" => {
+            let from: u64 = a.get("from").and_then(|s| s.parse().ok()).unwrap_or(1);
+            let to: u64 = a.get("to").and_then(|s| s.parse().ok()).unwrap_or(10);
+            let mut lines = Vec::new();
+            for id in from..=to {
+                lines.extend(browse::scenario(id, seed, thorough, "browse"));
             }
             sim::write_trace(&out, &lines);
             println!("{}", json!({"summary": {"scenarios": to + 1 - from, "lines": lines.len()}}));
